@@ -11,7 +11,7 @@ import os
 
 from vlib.common import Check, rng, run_case, pmap, workdir, cleanup, short
 
-STATES = ['coop', 'swallow', 'idle-persistent', 'finished', 'busy-persistent', 'in-context', 'empty-context']
+STATES = ['coop', 'swallow', 'idle-persistent', 'finished', 'busy-persistent', 'in-context', 'empty-context', 'swallow-in-context', 'idle-in-context']
 
 
 def case(spec, log):
@@ -60,6 +60,15 @@ def case(spec, log):
                 contexts.append(ctx)
                 w = PersistentRemoteWorker(None, host=host, context=ctx.context_id)
                 w.enqueue()
+            elif st == 'swallow-in-context':
+                ctx = RemoteContext(100 + i, host=host, target=vtargets.swallow_loop, args=[sub])
+                contexts.append(ctx)
+                w = PersistentRemoteWorker(None, host=host, context=ctx.context_id)
+                w.enqueue()
+            elif st == 'idle-in-context':
+                ctx = RemoteContext(100 + i, host=host, target=vtargets.pecho)
+                contexts.append(ctx)
+                w = PersistentRemoteWorker(None, host=host, context=ctx.context_id)
             elif st == 'empty-context':
                 ctx = RemoteContext(100 + i, host=host, target=vtargets.ret_value)
                 contexts.append(ctx)
@@ -67,7 +76,7 @@ def case(spec, log):
             workers.append((i, st, w))
         # let targets get going
         t0 = time.monotonic()
-        need = [os.path.join(md, str(i), 'entered') for i, st, w in workers if st in ('coop', 'swallow', 'busy-persistent', 'in-context')]
+        need = [os.path.join(md, str(i), 'entered') for i, st, w in workers if st in ('coop', 'swallow', 'busy-persistent', 'in-context', 'swallow-in-context')]
         while time.monotonic() - t0 < 5 and not all(os.path.exists(p) for p in need):
             time.sleep(0.01)
         time.sleep(spec.get('settle', 0.2))
@@ -94,7 +103,7 @@ def case(spec, log):
         desc_before = descendants(spid)
         log.ev('before_stop', server_pid=spid, descendants=desc_before, child_pids=[w.pid for _, _, w in workers])
         if spec['how'] == 'terminate':
-            r = bounded('server.terminate', lambda: server.terminate(), 60)
+            r = bounded('server.terminate', lambda: server.terminate(**({'timeout': spec['term_timeout']} if spec.get('term_timeout') else {})), 90)
         else:
             os.kill(spid, signal.SIGTERM)
             r = bounded('server.wait', lambda: server.wait(20), 60)
@@ -160,7 +169,7 @@ def judge(chk, spec, res):
     # children by signal: only when the server left by itself well within that second has every child demonstrably
     # been asked gracefully (and was therefore able to report)
     stop_dur = [e['dur'] for e in evs if e.get('ev') == 'return' and e.get('name') == 'server.terminate']
-    graceful_for_all = bool(stop_dur) and stop_dur[0] < 0.8
+    graceful_for_all = bool(stop_dur) and stop_dur[0] < 0.8 * (spec.get('term_timeout') or 1)
     for e in [e for e in evs if e.get('ev') == 'worker']:
         chk.count('parent_side_workers_observed')
         st = e['state']
@@ -183,7 +192,7 @@ def judge(chk, spec, res):
             continue
         et = e['error']['type'] if e['error'] else None
         chk.count('error_%s_%s_%s' % (st, spec['how'], et))
-        if spec['how'] == 'terminate' and graceful_for_all and st in ('coop', 'idle-persistent', 'busy-persistent', 'in-context') and et != 'WorkerTerminatedError' and not spec.get('startup_race'):
+        if spec['how'] == 'terminate' and graceful_for_all and st in ('coop', 'idle-persistent', 'busy-persistent', 'in-context', 'idle-in-context') and et != 'WorkerTerminatedError' and not spec.get('startup_race'):
             probs.append('no-WorkerTerminatedError-from-reporting-child:%s:error=%s' % (st, et))
     late = [e for e in evs if e.get('ev') == 'late_worker']
     if late and late[0]['still_blocked']:
@@ -198,18 +207,24 @@ def judge(chk, spec, res):
 def run(tier):
     thorough = tier == 'thorough'
     chk = Check('C12', 'exploration', tier,
-                '0-4 server children in mixed states {cooperative loop, swallowing loop, idle persistent, busy persistent, finished, inside a context, empty context} x {terminate(), SIGTERM} x shutdown moment '
+                '0-4 server children in mixed states {cooperative loop, swallowing loop, idle persistent, busy persistent, finished, inside a context (cooperative, swallowing, idle), empty context} x {terminate() with the default / a 3 s / a 10 s timeout, SIGTERM} x shutdown moment '
                 '{steady state, during worker start-up: server paused by the injector at lines of the hand-shake}; distinct non-trivial = distinct (children multiset order, how, moment)')
     r = rng('c12')
     jobs = []
     for st in STATES:
         for how in ('terminate', 'sigterm'):
             jobs.append(dict(children=[st], how=how))
+    # the helper process of a context needs about as long to stop an unco-operative worker as the server allows the helper
+    # itself: the outcome depends on which of the two deadlines fires first, so these are repeated
+    for rep in range(8 if thorough else 3):
+        for tt in (None, 3, 10):
+            jobs.append(dict(children=['swallow-in-context'], how='terminate', rep=rep, term_timeout=tt))
+            jobs.append(dict(children=['swallow-in-context', r.choice(STATES)], how='terminate', rep=rep, term_timeout=tt))
     jobs.append(dict(children=[], how='terminate'))
     jobs.append(dict(children=[], how='sigterm'))
     for _ in range(120 if thorough else 30):
         n = r.randint(2, 4)
-        jobs.append(dict(children=[r.choice(STATES) for _ in range(n)], how=r.choice(['terminate', 'sigterm']), settle=r.choice([0.0, 0.2, 0.6])))
+        jobs.append(dict(children=[r.choice(STATES) for _ in range(n)], how=r.choice(['terminate', 'sigterm']), settle=r.choice([0.0, 0.2, 0.6]), term_timeout=r.choice([None, None, 3, 10])))
     wd = workdir('c12')
     # start-up race: record the server-side __setstate__ lines once, then pause at selected ones
     from vlib import lpi
@@ -245,7 +260,7 @@ def run(tier):
         return sp, res
 
     for sp, res in pmap(one, list(enumerate(jobs + race)), 6):
-        chk.case((tuple(sp['children']), sp['how'], sp.get('startup_race', False), sp.get('line'), sp.get('k')))
+        chk.case((tuple(sp['children']), sp['how'], sp.get('startup_race', False), sp.get('line'), sp.get('k'), sp.get('rep'), sp.get('term_timeout')))
         chk.count('configurations')
         chk.count('stop_by_' + sp['how'])
         if sp.get('startup_race'):
